@@ -208,6 +208,10 @@ func (f *Frame) execCallCommon(ins ssa.Instruction, call *ssa.CallCommon, st *St
 		f.checkCrashInv(st, ins.Pos(), fmt.Sprintf("%s#%d", lastName(ct.display), n))
 	}
 	pre := st.clone()
+	if f.sitePC == nil {
+		f.sitePC = map[ssa.Instruction]*Term{}
+	}
+	f.sitePC[ins] = st.pc
 	res := f.dispatch(ins, call, ct, st, resType)
 	// site assertions (after)
 	for _, c := range f.siteClauses(ins, call, true) {
@@ -475,7 +479,7 @@ func (f *Frame) applyContract(ins ssa.Instruction, c *Contract, ct *callTarget, 
 	for _, en := range c.Ensures {
 		t, err := env2.formula(en.Expr)
 		if err != nil {
-			if strings.HasPrefix(err.Error(), "resultof") {
+			if strings.HasPrefix(err.Error(), "resultof") || strings.HasPrefix(err.Error(), "reached") {
 				continue // clause mentions callee-internal call results: not usable at call sites (assuming less is sound)
 			}
 			f.eng.specError(c.Func, en, err)
